@@ -65,7 +65,9 @@ def s_case(draw):
             w["tests"] = [k if k != "raw" else "success" for k in w["tests"]]
     fault = draw(st.one_of(st.none(), st.none(),
                            st.builds(lambda k, b: {"at": "make_tests", "k": k, "base": b}, st.integers(0, 4), st.booleans()),
-                           st.builds(lambda k, b: {"at": "result", "k": k, "base": b}, st.integers(0, 12), st.booleans())))
+                           st.builds(lambda k, b: {"at": "result", "k": k, "base": b}, st.integers(0, 12), st.booleans()),
+                           # the calling thread is interrupted while it waits for its workers (where a real Ctrl-C lands)
+                           st.builds(lambda k: {"at": "main_wait", "k": k, "base": True}, st.integers(0, 6))))
     return {"suite": suite, "workers": workers, "fault": fault, "wrap_result": draw(st.sampled_from([False, True, "own_stop"])),
             "second_run": draw(st.booleans()),
             "eq_mode": draw(st.sampled_from(["identity", "identity", "all-equal", "unhashable"])),    # how the sub-suites compare / hash
@@ -247,7 +249,12 @@ def execute(spec, schedule=None):
                 import unittest
                 suite = ts.ConcurrentTestSuite(unittest.TestSuite(), make_tests, wrap_result if spec["wrap_result"] else None)
             try:
-                suite.run(caller)
+                try:
+                    suite.run(caller)
+                except BaseException as first_exc:
+                    if not isinstance(first_exc, S.Killed):
+                        state["aborted"] = True       # known from this instant on, whatever follows
+                    raise
                 # who is still running at the moment run() returns (before anything else is scheduled)
                 state["unfinished_at_return"] = [t.name for t in sched.tasks if t.name.startswith("W") and not t.done]
             finally:
@@ -298,7 +305,21 @@ def execute(spec, schedule=None):
     import queue as real_queue
     saved_glob = (real_threading.Thread, real_threading.Semaphore, real_queue.Queue)
     ts.threading = fake_threading
-    ts.Queue = lambda maxsize=0: S.FakeQueue(sched, maxsize)
+    class WaitQueue(S.FakeQueue):
+        """The queue the calling thread waits on: the k-th get() can be hit by an interrupt."""
+        gets = 0
+
+        def get(self, *a, **kw):
+            f = spec["fault"]
+            t = S.current_task()
+            if f and f["at"] == "main_wait" and t is not None and t.name == "main" and not state.get("second_phase"):
+                n = WaitQueue.gets
+                WaitQueue.gets += 1
+                if n == f["k"]:
+                    sched.yield_point("main.interrupted")
+                    raise Interrupt("the calling thread was interrupted in its %d-th wait" % n)
+            return S.FakeQueue.get(self)
+    ts.Queue = lambda maxsize=0: WaitQueue(sched, maxsize)
     try:
         sched.spawn(main, "main")
         try:
@@ -317,6 +338,8 @@ def execute(spec, schedule=None):
         raise HarnessError("instrumentation no longer binds: no fake thread was created")
     fault = spec["fault"]
     fault_fired = isinstance(state["run_exc"], FAULTS) or (fault and fault["at"] == "result" and state["calls"] > fault["k"])
+    if fault and fault["at"] == "main_wait" and isinstance(state["run_exc"], FAULTS):
+        fault_fired = True
     classic_result_fault = bool(fault and fault["at"] == "result" and not stream)
 
     # 1. every yielded worker ran exactly once, in its own thread
@@ -341,7 +364,7 @@ def execute(spec, schedule=None):
         # abort: started workers see shouldStop afterwards
         if isinstance(state["run_exc"], FAULTS):
             for e in worker_log:
-                if e[1] == "shouldStop" and e[3] and not e[2]:
+                if e[1] == "shouldStop" and e[3] and not e[2] and e[0] != 90:       # (worker 90 belongs to the later, fault-free run)
                     vs.append(V("abort", "stop-lost-%s" % spec["suite"], "worker %d read shouldStop == False after run() had been aborted" % e[0]))
                     break
     # 3. delivery
